@@ -69,7 +69,7 @@ public:
 	}
 
 	bool empty() const {
-		return size_;
+		return size_ == 0;
 	}
 
 	T *begin() {
